@@ -1,6 +1,7 @@
 package concur
 
 import (
+	"reflect"
 	"bytes"
 	"encoding/json"
 	"fmt"
@@ -387,6 +388,12 @@ func execC11(sc *core.Scenario) *core.Result {
 	}
 	env := &c11env{shared: docFromB64(sp.Docs[0]), wdoc: docFromB64(sp.Docs[1])}
 	other := docFromB64(sp.Docs[2])
+	if sc.Run%2 == 1 {
+		// lists with spare capacity, as repeated appends leave (decoding gives len == cap for short lists)
+		growEmpty = sc.Run%4 == 3
+		growSlices(reflect.ValueOf(env.shared), 0)
+		growSlices(reflect.ValueOf(env.wdoc), 0)
+	}
 	if env.shared.NodeList == nil {
 		env.shared.NodeList = &sbom.NodeList{}
 	}
@@ -409,9 +416,11 @@ func execC11(sc *core.Scenario) *core.Result {
 		task := rec.Task
 		return func() string {
 			before := gen.Dump(env.shared)
-			beforeW := ""
+			beforeH := gen.DumpHidden(env.shared)
+			beforeW, beforeWH := "", ""
 			if op.K == "Write" {
 				beforeW = gen.Dump(env.wdoc)
+				beforeWH = gen.DumpHidden(env.wdoc)
 			}
 			var beforeP string
 			var pv *sbom.NodeList
@@ -428,8 +437,16 @@ func execC11(sc *core.Scenario) *core.Result {
 				}
 			}
 			check("receiver/shared document", before, gen.Dump(env.shared))
+			checkHidden := func(what, b, a string) {
+				if a != b {
+					env.viol[task] = append(env.viol[task], core.Violation{Sig: fmt.Sprintf("mut:%s:beyond-length", c11ReadOnly[op.K]),
+						Detail: fmt.Sprintf("%s wrote into its %s beyond the length of a list (between length and capacity): before %q, after %q", c11ReadOnly[op.K], what, b, a)})
+				}
+			}
+			checkHidden("receiver/shared document", beforeH, gen.DumpHidden(env.shared))
 			if beforeW != "" {
 				check("document", beforeW, gen.Dump(env.wdoc))
+				checkHidden("document", beforeWH, gen.DumpHidden(env.wdoc))
 			}
 			if pv != nil {
 				check("argument", beforeP, gen.Dump(pv))
